@@ -129,7 +129,7 @@ structure LeafSem (card : Name → Nat) (leaf : LeafFn) where
   U : Name → Prop
   Φ : Option Var → List Iv → List Name → Val → Rat
   card_pos : ∀ x, 0 < card x
-  leaf_eq : ∀ pop w c p, okW pop w → (∀ v ∈ c ++ p, v.ivs = w ∧ v.star = none ∧ okN pop w v.name) →
+  leaf_eq : ∀ pop w c p, okW pop w → (∀ v ∈ c ++ p, v.ivs = w ∧ v.star = none ∧ v.isIv = false ∧ okN pop w v.name) →
     ∀ σ, leaf pop c p σ = Φ pop w (vnames (c ++ p)) σ / Φ pop w (vnames p) σ
   nil : ∀ pop w, okW pop w → ∀ σ, Φ pop w [] σ = 1
   congr : ∀ pop w E E', (∀ v, v ∈ E ↔ v ∈ E') → Φ pop w E = Φ pop w E'
@@ -140,7 +140,7 @@ variable {card : Name → Nat} {leaf : LeafFn}
 
 /-- admissible leaves: all variables in one admissible world, un-starred, with allowed names -/
 def LeafSem.Adm (S : LeafSem card leaf) (pop : Option Var) (c p : List Var) : Prop :=
-  ∃ w, S.okW pop w ∧ ∀ v ∈ c ++ p, v.ivs = w ∧ v.star = none ∧ S.okN pop w v.name
+  ∃ w, S.okW pop w ∧ ∀ v ∈ c ++ p, v.ivs = w ∧ v.star = none ∧ v.isIv = false ∧ S.okN pop w v.name
 
 theorem LeafSem.adm_mono (S : LeafSem card leaf) : LeafMono S.Adm := by
   intro pop c p c' p' ⟨w, hw, h⟩ hc hp
